@@ -63,9 +63,9 @@ def absoluteWidthCore (b : HBox) (ltr : Bool) (cbX cbW : Rat) : HBox × Bool × 
       | none, none =>
         if w + pb + r + l ≤ cbW then { b with ml := some (wfm / 2), mr := some (wfm / 2) }
         else { b with ml := some (if ltr then 0 else wfm), mr := some (if ltr then wfm else 0) }
-      | none, some _ => { b with ml := some wfm }
-      | some _, none => { b with mr := some wfm }
-      | some _, some _ => if ltr then { b with mr := some wfm } else { b with ml := some wfm }
+      | none, some mr => { b with ml := some (wfm - mr) }
+      | some ml, none => { b with mr := some (wfm - ml) }
+      | some ml, some mr => if ltr then { b with mr := some (wfm - ml) } else { b with ml := some (wfm - mr) }
     (b', false, l + dtx)
   | left, right, width =>
     let ml := autoZero b.ml
@@ -151,9 +151,9 @@ def absoluteHeight (b : VBox) (cbY cbH : Rat) : VBox × Bool × Rat :=
     let b' : VBox :=
       match b.mt, b.mb with
       | none, none => { b with mt := some (hfm / 2), mb := some (hfm / 2) }
-      | none, some _ => { b with mt := some hfm }
-      | some _, none => { b with mb := some hfm }
-      | some _, some _ => { b with mb := some hfm }
+      | none, some mb => { b with mt := some (hfm - mb) }
+      | some mt, none => { b with mb := some (hfm - mt) }
+      | some mt, some _ => { b with mb := some (hfm - mt) }
     (b', false, t + dty)
   | top, bottom, height =>
     let mt := autoZero b.mt
@@ -227,8 +227,8 @@ def absoluteReplacedH (b : RBox) (ltr : Bool) (cbX cbW : Rat) : RBox :=
         if remaining ≥ 0 then { b with ml := some (remaining / 2), mr := some (remaining / 2) }
         else { b with ml := some (if ltr then 0 else remaining),
                       mr := some (if ltr then remaining else 0) }
-      | none, _ => { b with ml := some remaining }
-      | _, _ => { b with mr := some remaining }
+      | none, some mr => { b with ml := some (remaining - mr) }
+      | some ml, _ => { b with mr := some (remaining - ml) }
   | left, right =>
     let ml := autoZero b.ml
     let mr := autoZero b.mr
@@ -258,8 +258,8 @@ def absoluteReplacedV (b : RBox) (cbY cbH : Rat) : RBox :=
       let remaining := cbH - (b.borderHeight + t + bo)
       match mt, mb with
       | none, none => { b with mt := some (remaining / 2), mb := some (remaining / 2) }
-      | none, _ => { b with mt := some remaining }
-      | _, _ => { b with mb := some remaining }
+      | none, some mb => { b with mt := some (remaining - mb) }
+      | some mt, _ => { b with mb := some (remaining - mt) }
   | top, bottom =>
     let mt := autoZero b.mt
     let mb := autoZero b.mb
